@@ -181,6 +181,7 @@ pub struct UProfile {
 pub fn uprofile_for(prop: &str) -> UProfile {
     match prop {
         "C12" => UProfile { prop: "C12", actions: 100, w_close: 5, w_abandon: 6, w_advance: 4, timeouts: true },
+        "C02" => UProfile { prop: "C02", actions: 120, w_close: 2, w_abandon: 10, w_advance: 4, timeouts: true },
         "C11" => UProfile { prop: "C11", actions: 100, w_close: 3, w_abandon: 8, w_advance: 4, timeouts: true },
         "C10" => UProfile { prop: "C10", actions: 80, w_close: 1, w_abandon: 3, w_advance: 20, timeouts: true },
         _ => UProfile { prop: "C05", actions: 140, w_close: 0, w_abandon: 8, w_advance: 4, timeouts: true },
@@ -346,7 +347,7 @@ impl UDirector {
                                     w.viol(&["C12"], "timeout_instead_of_closed", format!("t{} {:?} on a closed pool returned Timeout", t, kind));
                                 } else if eff == Some(Duration::ZERO) {
                                     if in_pool - woken_same > 0 {
-                                        w.viol(&["C05", "C10"], "nonblocking_get_failed", format!("t{} zero-timeout get failed although {} objects were available", t, in_pool));
+                                        w.viol(&["C05", "C10", "C02"], "nonblocking_get_failed", format!("t{} zero-timeout get failed although {} objects were available", t, in_pool));
                                     }
                                 } else {
                                     match eff {
@@ -358,7 +359,7 @@ impl UDirector {
                             }
                             PoolError::Closed => {
                                 if !closed {
-                                    w.viol(&["C12", "C05"], "closed_on_open_pool", format!("t{} got Closed from an open pool", t));
+                                    w.viol(&["C12", "C05", "C02"], "closed_on_open_pool", format!("t{} got Closed from an open pool", t));
                                 }
                                 w.bump("gets_closed");
                             }
@@ -476,7 +477,7 @@ impl UDirector {
                     }
                     PoolError::Closed => {
                         if !closed {
-                            w.viol(&["C12", "C05"], "closed_on_open_pool", "try_get got Closed from an open pool".into());
+                            w.viol(&["C12", "C05", "C02"], "closed_on_open_pool", "try_get got Closed from an open pool".into());
                         }
                     }
                     PoolError::NoRuntimeSpecified => w.viol(&["C12", "C10"], "no_runtime_unjustified", "try_get returned NoRuntimeSpecified".into()),
@@ -525,7 +526,7 @@ impl UDirector {
                 match e {
                     PoolError::Closed => {
                         if !closed {
-                            w.viol(&["C12", "C05"], "closed_on_open_pool", "try_add got Closed from an open pool".into());
+                            w.viol(&["C12", "C05", "C02"], "closed_on_open_pool", "try_add got Closed from an open pool".into());
                         }
                     }
                     PoolError::Timeout => {
@@ -655,9 +656,9 @@ impl UDirector {
             // blocked callers must be justified
             if getters > 0 {
                 if w.closed {
-                    w.viol(&["C12"], "blocked_after_close", format!("{} getters still blocked although the pool is closed", getters));
+                    w.viol(&["C12", "C02"], "blocked_after_close", format!("{} getters still blocked although the pool is closed", getters));
                 } else if in_pool > 0 {
-                    w.viol(&["C05"], "stranded_getter", format!("{} getters blocked while {} objects wait in the pool", getters, in_pool));
+                    w.viol(&["C05", "C02"], "stranded_getter", format!("{} getters blocked while {} objects wait in the pool", getters, in_pool));
                 }
             }
             if adders > 0 {
